@@ -5,8 +5,4 @@ import "qedverif/lib"
 // Workers are child-process entry points (qv worker <name> args...).
 var Workers = map[string]func(args []string) int{}
 
-func RunC17(c *lib.Ctx) { c.Inconclusive("C17: check not built yet") }
-
-func RunC18(c *lib.Ctx) { c.Inconclusive("C18: check not built yet") }
-
 func RunC19(c *lib.Ctx) { c.Inconclusive("C19: check not built yet") }
